@@ -180,6 +180,8 @@ type dsSim struct {
 	reqThisConn    map[bitcoin.Hash32]int  // block hash -> times requested on this connection
 	reqLive        map[bitcoin.Hash32]bool // requested on this connection and, at the end of the last step, still outstanding (in the request queue or in processing): its branch was not abandoned
 	wireRequests   int
+	everRequested  map[bitcoin.Hash32]bool
+	forkExpect     []*verifkit.Block // first block of a branch that forked among pending blocks: it must be requested
 	forkInWindow   int // forkwindow steps that found a requested, unprocessed block to fork at
 	rerequests     int // legitimate repeats on one connection (after the node abandoned the branch)
 	// the node was restarted on a stored chain that no longer contains the configured start block
@@ -612,6 +614,13 @@ func (s *dsSim) probeChain(what string) {
 // checkCallbacks judges the HandleHeaders callback sequence of every handler (C02) and the
 // getdata sequence (C13) at the end of a scenario.
 func (s *dsSim) checkCallbacks(handlers int) {
+	// C13: a fork among not-yet-processed blocks is followed - the new branch is requested
+	// (unless the peer left that branch again before the node could)
+	for _, b := range s.forkExpect {
+		if b.IsAncestorOf(s.peer.tip) && !s.everRequested[b.Hash] && !s.crashed {
+			s.find("C13", "C13/wire/fork-among-pending-not-followed", fmt.Sprintf("the peer forked at block %d while the node had it requested or queued; the first block of the new branch (height %d) was never requested", b.Height-1, b.Height))
+		}
+	}
 	evs := s.e.log.snapshot()
 	for h := 0; h < handlers; h++ {
 		// shadow chain from callbacks: height -> header
@@ -692,6 +701,10 @@ func (s *dsSim) judgeBlockRequests(gd *wire.MsgGetData) {
 		}
 		s.reqThisConn[h]++
 		s.reqLive[h] = true
+		if s.everRequested == nil {
+			s.everRequested = map[bitcoin.Hash32]bool{}
+		}
+		s.everRequested[h] = true
 		if b.Parent != nil {
 			_, parentRequested := s.reqThisConn[b.Parent.Hash]
 			ph := b.Parent.Hash
